@@ -65,6 +65,7 @@ type State struct {
 	Steps    int
 	Result   Value
 	Lenient  bool // package initialisation mode
+	Barrier  int  // no merging until Steps exceeds this (set by concretisation forks)
 	Notes    []string
 }
 
@@ -193,7 +194,7 @@ func (s *State) top() *Frame { return s.Stack[len(s.Stack)-1] }
 
 func (ex *Exec) clone(s *State) *State {
 	n := &State{Heap: make(map[int]*Object, len(s.Heap)), PC: append([]*Term{}, s.PC...), Status: s.Status,
-		Msg: s.Msg, SymCount: map[string]int{}, Syms: append([]SymRec{}, s.Syms...), Steps: s.Steps, Lenient: s.Lenient}
+		Msg: s.Msg, SymCount: map[string]int{}, Syms: append([]SymRec{}, s.Syms...), Steps: s.Steps, Lenient: s.Lenient, Barrier: s.Barrier}
 	ex.nextState++
 	n.ID = ex.nextState
 	for k, v := range s.Heap {
@@ -602,12 +603,6 @@ func (ex *Exec) RunHarness(fn *ssa.Function, args []Value) {
 	s.Lenient = false
 	fr := ex.newFrame(fn, args, nil)
 	s.Stack = []*Frame{fr}
-	defer func() {
-		if r := recover(); r != nil {
-			ex.Errors = append(ex.Errors, fmt.Sprintf("INTERNAL engine panic: %v", r))
-			panic(r)
-		}
-	}()
 	ex.exploreAll(s)
 }
 
@@ -775,12 +770,35 @@ func (ex *Exec) step(s *State) ([]*State, *stopPoint) {
 	if ex.Trace {
 		fmt.Printf("[%d] %s: %s\n", s.ID, fr.Fn.Name(), in)
 	}
-	succ, join, err := ex.exec(s, fr, in)
+	succ, join, err := ex.execGuarded(s, fr, in)
 	if err != nil {
+		if _, isU := err.(*execError); isU && s.Lenient && s.top() == fr {
+			// package initialisers: an instruction we cannot execute yields a poisoned value
+			if v, ok := in.(ssa.Value); ok {
+				fr.Locals[v] = Poison{err.Error()}
+				fr.IP++
+				return nil, nil
+			}
+			if _, ok := in.(*ssa.Store); ok {
+				fr.IP++
+				return nil, nil
+			}
+		}
 		ex.handleErr(s, err)
 		return nil, nil
 	}
 	return succ, join
+}
+
+func (ex *Exec) execGuarded(s *State, fr *Frame, in ssa.Instruction) (succ []*State, join *stopPoint, err error) {
+	if s.Lenient {
+		defer func() {
+			if r := recover(); r != nil {
+				err = unsupported("engine fault during init: %v", r)
+			}
+		}()
+	}
+	return ex.exec(s, fr, in)
 }
 
 func (ex *Exec) handleErr(s *State, err error) {
@@ -1518,10 +1536,14 @@ func (ex *Exec) concretizeAndRetry(s *State, fr *Frame, ts []*Term) ([]*State, *
 		if res == Unsat {
 			break
 		}
+		if model[t] == nil {
+			return nil, nil, unsupported("concretisation: no model value for %s", t)
+		}
 		val := ex.Ctx.BVBig(t.S.W, model[t])
 		eq := ex.Ctx.Eq(t, val)
 		alt := ex.clone(cur)
 		alt.PC = append(alt.PC, eq)
+		alt.Barrier = alt.Steps + 1
 		ex.pinLocals(alt, t, val)
 		out = append(out, alt)
 		cur.PC = append(cur.PC, ex.Ctx.BNot(eq))
